@@ -623,7 +623,10 @@ M('seed6-C18-stop-clears-flag', ['C18'], LN, "        \"\"\"Stop the heartbeat t
 M('fini-D20-shape', ['C18'], F, "        if hasattr(self, 'emitter') and self.emitter is not None:\n            self.emitter.stop_lineage_heart_beat()\n            self.emitter.emit_stop()\n        self.mq.destroy()", "        if hasattr(self, 'emitter') and self.emitter is not None:\n            self.emitter.emit_stop()\n        self.mq.destroy()", ['C18.R4'])
 M('facets-D21-shape-normalise-before-flatten', ['C18'], LN, "    data = flatten_dict(data)\n    data = normalize_facet_keys(data)", "    data = normalize_facet_keys(data)\n    data = flatten_dict(data)", ['C18.R6'])
 M('facets-D21-shape-no-keyword-fallback', ['C18'], LN, "        if not k.isidentifier() or iskeyword(k) or k in (\"schemaURL\", \"type\"):\n            k = f\"f_{k}\"\n", "", ['C18.R6'])
-M('facets-key-not-str', ['C18'], LN, "        k = str(k).lstrip(\"_\")  ", "        k = k.lstrip(\"_\")  ", ['C18.R6'])
+M('facets-key-not-str', ['C18'], LN, '''        k = re.sub(r"[^0-9A-Za-z_]", "_", str(k)).lstrip("_")''', '''        k = re.sub(r"[^0-9A-Za-z_]", "_", k).lstrip("_")''', ['C18.R6'])
+M('facets-D48-shape-lstrip-before-sub', ['C18'], LN, '''        k = re.sub(r"[^0-9A-Za-z_]", "_", str(k)).lstrip("_")''', '''        k = re.sub(r"[^0-9A-Za-z_]", "_", str(k).lstrip("_"))''', ['C18.R6'])
+M('runid-D47-shape-drawn-once-at-construction', ['C18'], LN, '''            self.run_id = self.get_run_id()  # one id per run: the emitter object is made once at import, it is shared by the filters of a forked pipeline and by a second run in the same process\n''', '', ['C18.R3'])
+M('seed8-C18-outer-finally-terminal-removed', ['C18'], F, '''                    if hasattr(filter, 'emitter') and filter.emitter is not None:\n                        filter.emitter.stop_lineage_heart_beat()\n                        filter.emitter.emit_stop()\n        finally:\n            if filter is not None and hasattr(filter, 'emitter') and filter.emitter is not None:\n                filter.emitter.stop_lineage_heart_beat()\n                filter.emitter.emit_stop()\n            stop_evt.set()''', '''        finally:\n            stop_evt.set()''', ['C18.R1'])
 M('balanced-D24-shape', ['C05'], Z, "out_nrequested + (requested and not ephemeral),", "out_nrequested + requested,", ['C05.R10'])
 M('prefix-D25-shape', ['C02', 'C03'], Z, "                    if topic and not sender.subscribed_all and topic not in sender.recvd_new:  # zmq.SUBSCRIBE matches prefixes, '/a/' also lets '/a/b/' through\n                        topic = ''  # not subscribed to, only the id and the topic list count\n", "", ['C02.R5', 'C03.R11'])
 M('prefix-guard-only-when-subscribed-all', ['C02'], Z, "if topic and not sender.subscribed_all and topic not in sender.recvd_new:", "if topic and sender.subscribed_all and topic not in sender.recvd_new:", ['C02.R5'])
